@@ -158,11 +158,11 @@ fn edit_shape<G: CurveTag>(ch: &mut Choices, m: &mut ProofMirror<G>) -> String {
     }
 }
 
-fn case<G: CurveTag>(bytes: &[u8], col: &mut Collector) -> Result<(), Failure> {
+fn case<G: CurveTag>(bytes: &[u8], col: &mut Collector, large: bool) -> Result<(), Failure> {
     let cut = bytes.len().min(16);
     let mut chi = Choices::new(&bytes[..cut]);
     let class = chi.weighted(&[14, 16, 40, 15, 15]);
-    let cfg = GenCfg { max_ops1: 10, max_closures: 2, max_ops2: 6, max_commits: 3, big_gates: 0 };
+    let cfg = GenCfg { max_ops1: 10, max_closures: 2, max_ops2: 6, max_commits: 3, big_gates: if large { 40 } else { 0 } };
     let (prog, mut label): (Program, String) = match class {
         1 => {
             let (p, l) = gen_bad(&bytes[cut..], G::CURVE, &cfg);
@@ -333,7 +333,8 @@ fn case<G: CurveTag>(bytes: &[u8], col: &mut Collector) -> Result<(), Failure> {
 
 fn dispatch(sub: &str, bytes: &[u8], col: &mut Collector) -> Result<(), Failure> {
     let curve = Curve::from_name(sub.split('/').nth(1).unwrap_or("")).unwrap_or(Curve::Secq);
-    with_curve!(curve, G => case::<G>(bytes, col))
+    let large = sub.ends_with("/large");
+    with_curve!(curve, G => case::<G>(bytes, col, large))
 }
 
 pub fn replay(sub: &str, bytes: &[u8], col: &mut Collector) -> Result<(), Failure> {
@@ -355,6 +356,9 @@ pub fn run(tier: &str, seed: u64) -> i32 {
         let sub = format!("c03/{}", c.name());
         rep.outcome.merge(replay_corpus("C03", &sub, &|b, col| dispatch(&sub, b, col)));
         rep.outcome.merge(search(&sub, seed, n, 600, &|b, col| dispatch(&sub, b, col)));
+        let subl = format!("c03/{}/large", c.name());
+        let nl = super::scale(tier, 24, 400);
+        rep.outcome.merge(search(&subl, seed, nl, 900, &|b, col| dispatch(&subl, b, col)));
     }
     for (c, f) in [("ref:accept", 0.05), ("ref:reject:a", 0.03), ("ref:reject:b-only", 0.03), ("ref:reject:c-only", 0.03), ("identity-crafted: (b) and (c) hold, (a) fails", 0.01)] {
         rep.required_classes.push((c.to_string(), f));
